@@ -593,7 +593,24 @@ def check(run, db, tier):
     run.rule('C13.band', 'band mask keeps [flow, fhigh]; each axis is integrated with its own frequency step; result is the square root')
     run.rule('C13.rms', 'synthetic surface: mask, then NaN-aware RMS, scale = requested/measured, applied to the surface')
     run.rule('C13.pure', 'no function of the PSD chain writes in place through one of its arguments (may-alias over views, joined over branches)')
-    for fn in (api_rules, origin_rules, norm_rules, band_rules, edge_rules, rms_rules, pure_rules):
+    # bandlimited_rms twice: on values (whatever its organisation), and by the older rules that read its statements (masked stores on a
+    # copy, edge locals, trapezoid calls); when those cannot read a reorganised routine the value decision stands alone
+    state = {}
+
+    def band_values(run, db):
+        state['n'] = band_value_rules(run, db)
+
+    def structural(fn):
+        def rule(run, db):
+            try:
+                fn(run, db)
+            except AnalysisError as e:
+                if not state.get('n'):
+                    raise
+                run.info('C13.band: %s does not read this organisation of bandlimited_rms (%s); decided on values for %d ways of giving the band' % (fn.__name__, str(e)[:140], state['n']))
+        rule.__name__ = fn.__name__
+        return rule
+    for fn in (api_rules, origin_rules, norm_rules, band_values, structural(band_rules), structural(edge_rules), rms_rules, pure_rules):
         run.group(fn, run, db)
     from . import c12
     from .c02 import Proxy
@@ -601,3 +618,203 @@ def check(run, db, tier):
     run.require_instances('C13.origin', 4)
     run.require_instances('C13.pure', 10)
     run.require_instances('C13.api', 50)
+
+
+def band_value_rules(run, db):
+    """bandlimited_rms decided on values, for the six ways of giving a band: the routine is interpreted as it stands (helpers, records,
+    np.where or masked stores) in PRED with the PSD a token array, r the radial-frequency coordinate and the integrations summarised.
+    Which samples of the PSD reach the first integration is a predicate over r; it must be exactly lo <= r <= hi with (lo, hi) the
+    band asked for (judged at five radii: below, on the lower edge, inside, on the upper edge, above); the two integrations must run
+    over axis 0 of what they are given, the first over the banded PSD and the second over the first one's result, each with a step
+    measured along its own axis of r at the centre; the result must be the square root of the second integral.
+    Number of cases decided; AnalysisError when the routine is not followed."""
+    from ..domains.pred import PredDomain, Pred, eval_pred, p_or, p_not, p_and
+    from ..domains.normdom import install_pi
+    from ..core.interp import Value
+    from ..core.norm import Rat
+    f = db.func(M + 'bandlimited_rms')
+
+    class Work(Value):
+        """the PSD with some samples set to zero: `zero` is the predicate of the zeroed samples (None: nothing zeroed yet)"""
+        def __init__(self, zero=None, stage=0, steps=()):
+            self.zero, self.stage, self.steps = zero, stage, list(steps)
+
+        def __repr__(self):
+            return 'Work(stage=%d)' % self.stage
+
+    cases = [('shortest period only', {'wllow': 'a'}), ('longest period only', {'wlhigh': 'b'}), ('both periods', {'wllow': 'a', 'wlhigh': 'b'}),
+             ('lower frequency only', {'flow': 'p'}), ('upper frequency only', {'fhigh': 'q'}), ('both frequencies', {'flow': 'p', 'fhigh': 'q'})]
+    decided = 0
+    for label, given in cases:
+        dom = PredDomain(coords=('r',))
+        it = install_pi(Interp(db, dom))
+        R = dom.R
+        A = lambda nme: Rat(R.atom(nme))
+        oe, om, og, osub, ost, ob = dom.call_ext, dom.method, dom.getattr, dom.subscript, dom.store_subscript, dom.binop
+        is_r = lambda v: not isinstance(v, (Work, Pred, Tup)) and dom.rat(v) is not None and dom.rat(v) == A('r')
+        ints = []
+
+        def call_ext(dotted, args, kwargs, node):
+            last = dotted.rsplit('.', 1)[-1]
+            a0 = args[0] if args else None
+            if last in ('max', 'amax', 'nanmax') and len(args) == 1 and is_r(a0):
+                return dom.sym('rmax')
+            if dotted == 'warnings.warn':
+                return Const(None)
+            if last in ('array', 'copy', 'asarray', 'ascontiguousarray') and isinstance(a0, Work):
+                return Work(a0.zero, a0.stage, a0.steps)
+            if last == 'where' and len(args) == 3 and isinstance(args[0], Pred):
+                keep, yes, no = args
+                if isinstance(yes, Work) and isinstance(no, Const) and no.v == 0:
+                    return Work(p_not(keep) if yes.zero is None else p_or(yes.zero, p_not(keep)), yes.stage, yes.steps)
+                if isinstance(no, Work) and isinstance(yes, Const) and yes.v == 0:
+                    return Work(keep if no.zero is None else p_or(no.zero, keep), no.stage, no.steps)
+                return Unknown('np.where on something that is not the PSD')
+            if last in ('trapz', 'trapezoid') and isinstance(a0, Work):
+                return integrate(a0, kwargs, args, node)
+            if last == 'sqrt' and isinstance(a0, Work):
+                w = Work(a0.zero, a0.stage, a0.steps)
+                w.root = True
+                return w
+            if last in ('abs', 'absolute') and len(args) == 1 and dom.rat(a0) is not None:
+                return dom.func_atom('abs', [a0])
+            return oe(dotted, args, kwargs, node)
+
+        def integrate(w, kwargs, args, node):
+            dx = kwargs.get('dx', args[2] if len(args) > 2 else None)
+            ax = kwargs.get('axis', args[3] if len(args) > 3 else Const(-1))
+            ints.append((w, dx, ax, node))
+            return Work(w.zero, w.stage + 1, w.steps + [(dx, ax)])
+
+        def call_prysm(fi, args, kwargs, node):
+            if fi.name in ('_trapezoid', '_trapz') and args and isinstance(args[0], Work):
+                from .common import bind_call
+                b = bind_call(fi, args, kwargs)
+                ints.append((args[0], b.get('dx'), b.get('axis', Const(-1)), node))
+                return Work(args[0].zero, args[0].stage + 1, args[0].steps + [(b.get('dx'), b.get('axis'))])
+            return None
+
+        def method(v, name, args, kwargs, node):
+            if is_r(v) and name == 'max' and not args and not kwargs:
+                return dom.sym('rmax')
+            if isinstance(v, Work) and name == 'copy':
+                return Work(v.zero, v.stage, v.steps)
+            if isinstance(v, Pred) and name in ('any', 'all'):
+                return Unknown('whether any sample is in the band')
+            return om(v, name, args, kwargs, node)
+
+        def getattr_(v, name, node):
+            if (is_r(v) or isinstance(v, Work)) and name == 'ndim':
+                return Const(2)
+            if (is_r(v) or isinstance(v, Work)) and name == 'shape':
+                return Tup([dom.sym('ROWS'), dom.sym('COLS')])
+            return og(v, name, node)
+
+        def subscript(v, idx, node):
+            if is_r(v):
+                items = idx.items if isinstance(idx, Tup) else [idx]
+                if len(items) == 2 and all(dom.rat(x) is not None for x in items):
+                    return dom.func_atom('r_at', list(items))
+                return Unknown('samples of r picked in a way that is not followed')
+            if isinstance(v, Work):
+                return Unknown('part of the PSD')
+            return osub(v, idx, node)
+
+        def store_subscript(target, idx, val, node):
+            if isinstance(target, Work):
+                if isinstance(idx, Pred) and isinstance(val, Const) and val.v == 0:
+                    target.zero = idx if target.zero is None else p_or(target.zero, idx)
+                    return True
+                target.lost = True
+                return True
+            return ost(target, idx, val, node)
+
+        def binop(op, a, b, node):
+            for x, y in ((a, b), (b, a)):
+                if isinstance(x, Work) and isinstance(y, Pred) and isinstance(op, ast.Mult):
+                    return Work(p_not(y) if x.zero is None else p_or(x.zero, p_not(y)), x.stage, x.steps)       # psd * inband
+            if isinstance(a, Work) or isinstance(b, Work):
+                return Unknown('arithmetic on the PSD')
+            return ob(op, a, b, node)
+        dom.call_ext, dom.method, dom.getattr, dom.subscript, dom.store_subscript, dom.binop, dom.call_prysm = call_ext, method, getattr_, subscript, store_subscript, binop, call_prysm
+        kw = {'r': dom.sym('r'), 'psd': Work()}
+        for nm in ('wllow', 'wlhigh', 'flow', 'fhigh'):
+            kw[nm] = dom.sym(given[nm]) if nm in given else Const(None)
+        del ints[:]
+        res = [p for p in it.run(f, kwargs=lambda: dict(kw, psd=Work())) if p.outcome == 'return']
+        # an early return for an empty band is a value question (sqrt(0)); the paths that integrate are judged
+        res = [p for p in res if isinstance(p.value, Work)]
+        if not res:
+            raise AnalysisError('bandlimited_rms (%s): no path returns the root of an integral of the PSD' % label)
+        lo_want = {'shortest period only': Rat(R.const(0)), 'longest period only': 1 / A('b'), 'both periods': 1 / A('b'),
+                   'lower frequency only': A('p'), 'upper frequency only': Rat(R.const(0)), 'both frequencies': A('p')}[label]
+        hi_name = {'shortest period only': 'a', 'longest period only': 'rmax', 'both periods': 'a', 'lower frequency only': 'rmax',
+                   'upper frequency only': 'q', 'both frequencies': 'q'}[label]
+        hi_is_period = label in ('shortest period only', 'both periods')
+        for p in res:
+            w = p.value
+            if getattr(w, 'lost', False) or w.zero is None:
+                raise AnalysisError('bandlimited_rms (%s): which samples of the PSD are kept is not followed' % label)
+            if w.stage != 2 or not getattr(w, 'root', False):
+                run.check(False, 'C13.band', f.qual, 'values: %s' % label, '', 'bandlimited_rms (%s) does not return the square root of two successive integrations of the banded PSD (it integrates %d times%s)'
+                          % (label, w.stage, '' if getattr(w, 'root', False) else ', no square root'), f.loc())
+                continue
+            # five radii relative to the band [L, L + 2g]: the symbols of the case are expressed through L and g
+            L, g = A('L_'), A('g_')
+            zero_lo = lo_want.is_zero()
+            sub = {}
+            if not zero_lo:
+                sub.update({'b': 1 / L} if label in ('longest period only', 'both periods') else {'p': L})
+            base = Rat(R.const(0)) if zero_lo else L
+            top = base + 2 * g
+            sub[hi_name] = (1 / top) if hi_is_period else top
+            pts = [('below the band', base - g, True), ('on the lower edge', base, False), ('inside', base + g, False), ('on the upper edge', top, False), ('above the band', top + g, True)]
+            if zero_lo:
+                pts = pts[1:]
+            verdict = {}
+            for nm_, rv, want in pts:
+                verdict[nm_] = (eval_pred(w.zero, dict(sub, r=rv), {'g_', 'L_'}), want)
+            if any(v[0] is None for v in verdict.values()):
+                raise AnalysisError('bandlimited_rms (%s): the predicate of the zeroed samples is not decided at the test radii (%s)' % (label, {k: v[0] for k, v in verdict.items()}))
+            okb = all(got is want for got, want in verdict.values())
+            run.check(okb, 'C13.band', f.qual, 'values: band, %s' % label, 'exactly the samples with %s <= r <= %s reach the integration' % (lo_want.key(), hi_name if not hi_is_period else '1/' + hi_name),
+                      'bandlimited_rms with %s keeps/zeroes the wrong samples: %s -- the band asked for is [%s, %s]' %
+                      (label, ', '.join('%s %s' % (k, 'zeroed' if v[0] else 'kept') for k, v in verdict.items()), lo_want.key(), ('1/' + hi_name) if hi_is_period else hi_name), f.loc())
+            # the two integrations: axis 0 of what they are given, steps measured along axis 0 and then axis 1 of r at the centre
+            steps = w.steps
+            oka = all(isinstance(ax, Const) and ax.v == 0 for _, ax in steps)
+            cy, cx = dom.rat(dom.floordiv(A('ROWS'), Rat(R.const(2)), None)) if hasattr(dom, 'floordiv') else None, None
+            want_steps = []
+            for axis in (0, 1):
+                c0 = [Sym(R.func('floordiv', [A('ROWS'), Rat(R.const(2))])), Sym(R.func('floordiv', [A('COLS'), Rat(R.const(2))]))]
+                want_steps.append(c0)
+            got_steps = [dom.rat(dx) for dx, _ in steps]
+            if any(s_ is None for s_ in got_steps):
+                raise AnalysisError('bandlimited_rms (%s): the step of an integration is not followed' % label)
+
+            def step_axis(s_):
+                # |r_at(i, j) - r_at(i', j')|: the axis along which the two samples differ (by one)
+                ats = sorted(a_ for a_ in s_.atoms() if a_.startswith('abs('))
+                if len(ats) != 1 or not (s_ == Rat(R.atom(ats[0]))):
+                    return None
+                inner = R.info.get(ats[0])[1][0]
+                pts_ = sorted(a_ for a_ in inner.atoms() if a_.startswith('r_at('))
+                if len(pts_) != 2:
+                    return None
+                (i0, j0), (i1, j1) = [R.info.get(a_)[1] for a_ in pts_]
+                di, dj = Rat(i0) - Rat(i1), Rat(j0) - Rat(j1)
+                one = Rat(R.const(1))
+                if dj.is_zero() and (di == one or di == -one):
+                    return 0
+                if di.is_zero() and (dj == one or dj == -one):
+                    return 1
+                return None
+            axes_ = [step_axis(s_) for s_ in got_steps]
+            if any(a_ is None for a_ in axes_):
+                raise AnalysisError('bandlimited_rms (%s): an integration step is not the distance of two neighbouring samples of r (%s)' % (label, [s_.key() for s_ in got_steps]))
+            run.check(oka and axes_ == [0, 1], 'C13.band', f.qual, 'values: integrations, %s' % label,
+                      'rows are integrated with the step of r along axis 0, then columns with the step along axis 1 (each call reduces axis 0 of what it is given)',
+                      'bandlimited_rms integrates over axes %s with steps measured along axes %s of r: for non-square data the two frequency steps differ'
+                      % ([getattr(ax, 'v', '?') for _, ax in steps], axes_), f.loc())
+            decided += 1
+    return decided
